@@ -7,6 +7,9 @@ from harness import core
 
 def run(ctx):
     rng = random.Random(ctx.seed + 14)
+    # the design: the implementation-shaped cache model with a mapping that may drop the entry at any moment
+    # (Evict): callers still see only their own outcomes and an eviction never leads to two computations at once
+    ctx.mc('cache', 'MC_Cache', 'MC_3x1_evict.cfg', timeout=1800, require_actions=['Evict', 'Store', 'FuncStart'])
     raw = tlc_cases(ctx, 'KeysGen', 'KeysGen_q.cfg' if ctx.tier == 'quick' else 'KeysGen_t.cfg', 'CASE', workers=1,
                     timeout=1800)
     seen = set()
